@@ -19,22 +19,22 @@ import (
 )
 
 var c09Base = map[string]string{
-	"tsconfig.json":                   `{"extends":"./tsconfig.base.json","compilerOptions":{"jsx":"react"}}`,
-	"tsconfig.base.json":              `{"compilerOptions":{"useDefineForClassFields":false}}`,
-	"package.json":                    `{"name":"root"}`,
-	"src/entry.tsx":                   "import {a} from './a';\nimport b from './b';\nimport './c.css';\nimport d from './d.json';\nimport p from 'pkg';\nimport {E} from './enum';\nimport {K} from './klass';\nconsole.log(a, b, d, p, E.X, new K, <span/>);\n",
-	"src/second.ts":                   "import {a} from './a';\nimport {E} from './enum';\nexport const second = [a, E.Y];\n",
-	"src/a.js":                        "export const a = 'a1';\n",
-	"src/b.jsx":                       "export default <div>b</div>;\n",
-	"src/c.css":                       "a { color: red }\n",
-	"src/d.json":                      "{\"d\": 1}",
-	"src/enum.ts":                     "export const enum E { X = 1, Y = 2 }\n",
-	"src/klass.ts":                    "export class K { x; y = 1 }\n",
-	"node_modules/pkg/package.json":   `{"name":"pkg","main":"./main.js"}`,
-	"node_modules/pkg/main.js":        "module.exports = 'pkg-main';\n",
-	"node_modules/pkg/alt.js":         "module.exports = 'pkg-alt';\n",
-	"node_modules/pkg/esm.js":         "export default 'pkg-esm';\n",
-	"alt/a.js":                        "export const a = 'alt-a';\n",
+	"tsconfig.json":                 `{"extends":"./tsconfig.base.json","compilerOptions":{"jsx":"react"}}`,
+	"tsconfig.base.json":            `{"compilerOptions":{"useDefineForClassFields":false}}`,
+	"package.json":                  `{"name":"root"}`,
+	"src/entry.tsx":                 "import {a} from './a';\nimport b from './b';\nimport './c.css';\nimport d from './d.json';\nimport p from 'pkg';\nimport {E} from './enum';\nimport {K} from './klass';\nconsole.log(a, b, d, p, E.X, new K, <span/>);\n",
+	"src/second.ts":                 "import {a} from './a';\nimport {E} from './enum';\nexport const second = [a, E.Y];\n",
+	"src/a.js":                      "export const a = 'a1';\n",
+	"src/b.jsx":                     "export default <div>b</div>;\n",
+	"src/c.css":                     "a { color: red }\n",
+	"src/d.json":                    "{\"d\": 1}",
+	"src/enum.ts":                   "export const enum E { X = 1, Y = 2 }\n",
+	"src/klass.ts":                  "export class K { x; y = 1 }\n",
+	"node_modules/pkg/package.json": `{"name":"pkg","main":"./main.js"}`,
+	"node_modules/pkg/main.js":      "module.exports = 'pkg-main';\n",
+	"node_modules/pkg/alt.js":       "module.exports = 'pkg-alt';\n",
+	"node_modules/pkg/esm.js":       "export default 'pkg-esm';\n",
+	"alt/a.js":                      "export const a = 'alt-a';\n",
 }
 
 type c09Edit struct {
